@@ -150,3 +150,60 @@ example : legalB exDoc1 [1, 2, 3, 4] = false := by decide      -- a parallel chi
 example : (computeEntrySet exDoc1 [] [20]).toEnter = [2, 3, 4, 5, 6, 1] := by decide
 
 end Rfsm.Interp
+
+namespace Rfsm.Interp
+
+/-! ### A genuine violation (finding C01-history-from-inside)
+
+The W3C algorithm, followed literally by `src/fsm.rs`, re-enters states that were never exited when
+a transition whose source lies inside the parent of a history state targets that history state:
+`addDescendantStatesToEnter` adds the ancestors between the restored (or default) states and the
+history's parent, while the transition domain — computed from the *effective* targets — is a
+smaller state, so those ancestors were not exited.  Their `onentry` content runs again. -/
+
+/-- root 1 ⊃ compound 2 ⊃ { deep history 5 (default → 4), compound 3 ⊃ { atomic 4 } };
+    transition 10 on "b": 4 → history 5 -/
+def exDocH : Doc :=
+  { root := 1,
+    states := [
+      { id := 1, docId := 1, kids := [2], initial := 20 },
+      { id := 2, docId := 2, parent := 1, kids := [3], initial := 21, history := [5] },
+      { id := 3, docId := 3, parent := 2, kids := [4], initial := 22 },
+      { id := 4, docId := 4, parent := 3, transitions := [10] },
+      { id := 5, docId := 5, parent := 2, histType := 2, transitions := [11] }],
+    transitions := [
+      { id := 10, docId := 10, events := [[98]], source := 4, target := [5] },
+      { id := 11, docId := 11, source := 5, target := [4] },
+      { id := 20, source := 1, target := [2] }, { id := 21, source := 2, target := [3] },
+      { id := 22, source := 3, target := [4] }] }
+
+/-- the trivial data model -/
+def unitEnv : Env Unit :=
+  { cond := fun dm _ _ => ({ dm := dm }, some true), exec := fun dm _ _ => { dm := dm },
+    setEvent := fun dm _ => dm, initData := fun dm _ _ => { dm := dm },
+    doneData := fun dm _ _ => ({ dm := dm }, []), invoke := fun dm _ _ _ => { dm := dm } }
+
+theorem C01_counterexample_document : conformantB exDocH = true := by decide +kernel
+#assert_axioms C01_counterexample_document
+
+/-- after start-up the configuration is {2,3,4,1}; event "b" selects transition 10, whose exit set
+    is {4} only, while its entry set contains 3 — which is still active -/
+theorem C01_counterexample_step :
+    let s := startSession unitEnv exDocH ()
+    let s1 := (select unitEnv exDocH (some [98]) s).1
+    let ts := (select unitEnv exDocH (some [98]) s).2
+    ts = [10] ∧ computeExitSet exDocH s1.hv s1.cfg ts = [4] ∧
+    3 ∈ (computeEntrySet exDocH (exitStates unitEnv exDocH s1 ts).hv ts).toEnter ∧
+    3 ∈ (exitStates unitEnv exDocH s1 ts).cfg := by decide +kernel
+#assert_axioms C01_counterexample_step
+
+theorem C01_counterexample : ¬ C01_full := by
+  intro h
+  obtain ⟨_, h2⟩ := h Unit unitEnv exDocH C01_counterexample_document
+  have hr := startSession_reach unitEnv exDocH ()
+  have := (h2 (startSession unitEnv exDocH ()) (some [98]) hr).2
+  obtain ⟨_, _, h3, h4⟩ := C01_counterexample_step
+  exact this 3 h3 h4
+#assert_axioms C01_counterexample
+
+end Rfsm.Interp
